@@ -525,7 +525,7 @@ Qed.
 Lemma run_cb_n w c : NI w -> NI (run_cb w c).
 Proof.
   intros H. unfold run_cb. destruct (wcrash w); auto. destruct c.
-  - apply resume_n; auto.
+  - destruct (_ <? _)%nat; [apply resume_n; auto|apply crashw_n; auto].
   - exact H.
   - destruct (res_trig_get _ _) as [[k0 r0]|] eqn:E; auto with ndb.
     apply (set_res_n (w <| wk := k0 |>)); [exact H|]. eapply res_trig_get_ok; [exact E|]. apply (NI_get _ _ H).
